@@ -245,7 +245,7 @@ def trace_files_stage(ctx, driver, prefix, nfiles, module="Trace_Balloon", cfg=N
             if not also:
                 ctx.violation(prop, what, where)
             for a in also:
-                ctx.violation(a, {"C08": "after reopen/restart: ", "C09": "after state transfer: ", "C10": "during an insertion: ",
+                ctx.violation(a, {"C08": "after reopen/restart: ", "C07": "after crash recovery: ", "C09": "after state transfer: ", "C10": "during an insertion: ",
                                   "C06": "on a replica: "}.get(a, "") + what, where)
     ctx.count("distinct_nontrivial", len(distinct))
     ctx.count("evaluations", ctx.tv["events"])
@@ -268,6 +268,17 @@ def crash_tv(mode, quick_files, thorough_files):
         ctx.drv_par = 8
         trace_files_stage(ctx, "crash", "crash", ctx.pick(quick_files, thorough_files), module="Trace_Cluster",
                           cfg=CLUSTER_CFG, extra_args=["-mode", mode], spec="CSpec", subdir="crash_" + mode)
+        ctx.drv_par = None
+    return stage
+
+
+def crashbig_tv(quick_files, thorough_files):
+    def stage(ctx):
+        """SIGKILL + restart + log replay of a child-process node holding > 1000 events (the hyper cache table spans
+        pages of the warm-up that runs at start)"""
+        ctx.drv_par = 4
+        trace_files_stage(ctx, "crash", "crash", ctx.pick(quick_files, thorough_files), module="Trace_Cluster",
+                          cfg=CLUSTER_CFG, extra_args=["-mode", "kill", "-big"], spec="CSpec", subdir="crash_big")
         ctx.drv_par = None
     return stage
 
@@ -593,7 +604,7 @@ PLANS = {
                 "concurrently on a 3-node cluster (every call must get consecutive versions in request order; acknowledgements recorded in version order); plus 3-process clusters whose leader is SIGKILLed before/after the store write of an insertion"),
     "C06": plan("model_checking", [mc_cluster, cluster_tv("replicas", 6, 16), cluster_tv("restore", 3, 8), crashcluster_tv(2, 8)],
                 RULE_CLUSTER + "; plus 3-process clusters whose leader is SIGKILLed mid-insertion, re-election, restart and catch-up by log replay"),
-    "C07": plan("fault_enumeration", [mc_cluster, crash_tv("kill", 8, 16), crashcluster_tv(3, 12)], RULE_CLUSTER + "; fault enumeration: a child process hosting a real "
+    "C07": plan("fault_enumeration", [mc_cluster, crash_tv("kill", 8, 16), crashbig_tv(1, 4), crashcluster_tv(3, 12)], RULE_CLUSTER + "; long log: three bulks of ~360 events then SIGKILL at the next store write, restart, replay, sampled queries; fault enumeration: a child process hosting a real "
                 "RaftNode SIGKILLs itself immediately before / after the i-th store write (every i of the workload, both sides, with and "
                 "without a prior raft snapshot), is restarted on the same directories, replays its raft log, finishes the workload and "
                 "answers membership queries for every event; non-trivial = each (workload, crash write, side) experiment"),
